@@ -40,12 +40,12 @@ Fixpoint den (fuel : nat) (src : snet) (W : list (name * value)) (obs : bool) (n
                   match lookup n (s_observed src) with
                   | Some v => Some v
                   | None =>
-                      if s_stochastic st then Some (VApp (OpUser n) [] [])
+                      if s_stochastic st then Some (VApp (OpUser (s_opid st)) [] [])
                       else
                         match all_some (map (fun pp : name * param =>
                                                if flag src s_observable (fst pp) then den f src W true (fst pp)
                                                else den f src W false (fst pp)) parents) with
-                        | Some vs => Some (mk_call (OpUser n) (combine (map snd parents) vs))
+                        | Some vs => Some (mk_call (OpUser (s_opid st)) (combine (map snd parents) vs))
                         | None => None
                         end
                   end
@@ -77,7 +77,7 @@ Fixpoint den (fuel : nat) (src : snet) (W : list (name * value)) (obs : bool) (n
                         match obs_kw with
                         | None => None
                         | Some okw =>
-                            Some (mk_call (OpUser n)
+                            Some (mk_call (OpUser (s_opid st))
                                     (base ++ okw
                                      ++ (if s_uses_batch_size st then [(PStr "batch_size"%string, VBatch)] else [])
                                      ++ (if s_uses_meta st then [(PStr "meta"%string, VMeta)] else [])
@@ -180,10 +180,10 @@ Fixpoint nodup_b (l : list name) : bool :=
     harness log their own name, also when invoked for the observed twin; args_to_tuple is silent *)
 Definition op_name_of (src : snet) (n : name) : list name :=
   match sstate_of src n with
-  | Some _ => [n]
+  | Some st => [s_opid st]
   | None =>
       match find (fun ns : name * sstate => String.eqb (observed_name (fst ns)) n) (s_nodes src) with
-      | Some (x, st) => if s_observable st then [x] else []
+      | Some (x, st) => if s_observable st then [s_opid st] else []
       | None => []
       end
   end.
